@@ -4,6 +4,7 @@ import (
 	"fmt"
 	"go/token"
 	"go/types"
+	"strconv"
 	"strings"
 
 	"golang.org/x/tools/go/ssa"
@@ -13,6 +14,17 @@ func (c *FnCtx) execInstr(fr *Frame, st *State, instr ssa.Instruction) {
 	switch i := instr.(type) {
 	case *ssa.Alloc:
 		t := i.Type().Underlying().(*types.Pointer).Elem()
+		if at, isArr := t.Underlying().(*types.Array); isArr {
+			// arrays (e.g. the backing store of variadic arguments) live in the element heap like slice backing arrays
+			ref := c.newRef(st, fr.fn.Name()+".arr")
+			c.nonNil[ref] = true
+			h := c.elemHeap(at.Elem())
+			zeroArr := fmt.Sprintf("((as const (Array Int %s)) %s)", c.ty.SortOf(at.Elem()), c.ty.Zero(at.Elem()))
+			c.heapSet(st, h, "(store "+c.heapGet(st, h)+" "+ref+" "+zeroArr+")")
+			c.eng.onAlloc(c, st, ref, nil)
+			fr.vals[i] = Val{T: i.Type(), E: ref}
+			return
+		}
 		if !i.Heap {
 			key := localKey(fr, i)
 			st.locals[key] = Val{T: t, E: c.ty.Zero(t)}
@@ -28,7 +40,11 @@ func (c *FnCtx) execInstr(fr *Frame, st *State, instr ssa.Instruction) {
 			h := c.cellHeap(t)
 			c.heapSet(st, h, "(store "+c.heapGet(st, h)+" "+ref+" "+c.ty.Zero(t)+")")
 		}
-		fr.vals[i] = Val{T: i.Type(), E: ref}
+		nv := Val{T: i.Type(), E: ref}
+		if isMessageStruct(t) {
+			nv.FreshFrom = ref // a newly allocated message is trivially deep-fresh
+		}
+		fr.vals[i] = nv
 	case *ssa.FieldAddr:
 		base := c.val(fr, i.X)
 		pt := i.X.Type().Underlying().(*types.Pointer).Elem()
@@ -63,6 +79,13 @@ func (c *FnCtx) execInstr(fr *Frame, st *State, instr ssa.Instruction) {
 			c.boundsCheck(st, idx, "(s-len "+x.E+")", i.Pos())
 			comp := c.elemHeap(xt.Elem())
 			fr.vals[i] = Val{T: i.Type(), Loc: &Loc{Kind: locElem, Ref: "(s-arr " + x.E + ")", Idx: c.sc.Define("ix", sInt, "(+ (s-off "+x.E+") "+idx+")"), Comp: comp, RootT: xt.Elem()}}
+		case *types.Pointer:
+			at, ok := xt.Elem().Underlying().(*types.Array)
+			if !ok || x.E == "" {
+				c.unsupported("IndexAddr on %s", i.X.Type())
+			}
+			c.boundsCheck(st, idx, fmt.Sprint(at.Len()), i.Pos())
+			fr.vals[i] = Val{T: i.Type(), Loc: &Loc{Kind: locElem, Ref: x.E, Idx: idx, Comp: c.elemHeap(at.Elem()), RootT: at.Elem()}}
 		default:
 			c.unsupported("IndexAddr on %s", i.X.Type())
 		}
@@ -168,6 +191,7 @@ func (c *FnCtx) execInstr(fr *Frame, st *State, instr ssa.Instruction) {
 		}
 		ref := c.newRef(st, "clo$"+fn.Name())
 		c.nonNil[ref] = true
+		c.registerClosure(st, ref, fn, bs)
 		fr.vals[i] = Val{T: i.Type(), E: ref, Clo: &Closure{Fn: fn, Bindings: bs}}
 	case *ssa.MakeChan:
 		ref := c.newRef(st, "chan")
@@ -503,6 +527,7 @@ func (c *FnCtx) makeInterface(x Val, it types.Type) Val {
 	v := Val{T: it, E: c.sc.Define("mi", sIface, fmt.Sprintf("(mk-iface %d %s)", id, c.boxed(x.T, x.E)))}
 	v.Clo = x.Clo
 	v.Dyn = x.T
+	v.FreshFrom = x.FreshFrom
 	return v
 }
 
@@ -517,7 +542,7 @@ func (c *FnCtx) typeAssert(fr *Frame, st *State, i *ssa.TypeAssert) {
 	} else {
 		id := c.ty.TypeID(at)
 		ok = fmt.Sprintf("(= (i-tag %s) %d)", x.E, id)
-		v = Val{T: at, E: c.sc.Define("ta", c.ty.SortOf(at), c.unboxed(at, "(i-val "+x.E+")")), Clo: x.Clo}
+		v = Val{T: at, E: c.sc.Define("ta", c.ty.SortOf(at), c.unboxed(at, "(i-val "+x.E+")")), Clo: x.Clo, FreshFrom: x.FreshFrom}
 	}
 	if i.CommaOk {
 		okv := c.sc.Define("ok", sBool, ok)
@@ -594,6 +619,33 @@ func (c *FnCtx) execSlice(fr *Frame, st *State, i *ssa.Slice) {
 		r := c.sc.Define("ss", sInt, App(q("substr"), x.E, lo, hi))
 		c.assume(st, "(and (>= "+r+" 0) (= (strlen "+r+") (- "+hi+" "+lo+")))")
 		fr.vals[i] = Val{T: i.Type(), E: r}
+	case *types.Pointer:
+		at, ok := xt.Elem().Underlying().(*types.Array)
+		if !ok || x.E == "" {
+			c.unsupported("slice of %s", i.X.Type())
+		}
+		n := fmt.Sprint(at.Len())
+		lo, hi, mx := "0", n, n
+		if i.Low != nil {
+			lo = c.val(fr, i.Low).E
+		}
+		if i.High != nil {
+			hi = c.val(fr, i.High).E
+		}
+		if i.Max != nil {
+			mx = c.val(fr, i.Max).E
+		}
+		g := "(and (<= 0 " + lo + ") (<= " + lo + " " + hi + ") (<= " + hi + " " + mx + ") (<= " + mx + " " + n + "))"
+		o := c.obligation(st, "safe", "slice", g, i.Pos())
+		o.Desc = "slice bounds out of range"
+		c.assume(st, g)
+		sv := c.sc.Define("sl", sSlice, fmt.Sprintf("(mk-slice %s %s (- %s %s) (- %s %s))", x.E, lo, hi, lo, mx, lo))
+		if l, err1 := strconv.Atoi(lo); err1 == nil {
+			if h, err2 := strconv.Atoi(hi); err2 == nil {
+				c.sliceLen[sv] = strconv.Itoa(h - l)
+			}
+		}
+		fr.vals[i] = Val{T: i.Type(), E: sv}
 	default:
 		_ = xt
 		c.unsupported("slice of %s", i.X.Type())
